@@ -267,6 +267,20 @@ def _has_pitch(spec):
     return any(cat == 'PITCH' for n in notes for _, cat in n['main'])
 
 
+def _big_doc_job(job):
+    """documents far beyond the bounds: giant (1 950 lines, 336 different (clef, pitch) pairs, the first rows again at the end), aligned, 4 300 different notes under one clef"""
+    from .. import docspace as D
+    k, seed = job
+    acc = Acc()
+    j = (D.giant_jobs(seed) + D.aligned_jobs(seed) + [(['**kern'], ['DISTINCT'], seed)])[k]
+    m = D.materialise(j)
+    # the document-level oracle works on (headers, history); global comments are left out (they play no part in this property)
+    hist = [r for r in D.hist_of(m) if not isinstance(r, tuple)]
+    check_doc(acc, m.headers, hist)
+    acc.nontriv(('big', k, seed))
+    return acc
+
+
 def _job(job):
     headers, prefix, depth, seed, cap = job
     acc = Acc()
@@ -291,6 +305,7 @@ def run(ctx):
     check_pitch_level(ctx)
     ctx.pmap(_one_note_job, [(b, mk) for b in CLEF_BASE for mk in (MARKS if not quick else ['', 'v', '^^'])], chunksize=1)
     ctx.pmap(_clef_sweep_job, [(o, a) for o in ('listed', 'reversed', 'by-mark') for a in (('', '#') if quick else ('', '#', 'n', '--', '-y'))], chunksize=1)
+    ctx.pmap(_big_doc_job, [(k, seed) for k in range(5)], chunksize=1)
     jobs = []
     for h, d in cfg:
         shorter, js = X.walk_jobs(h, d, seed, 4, menu, split_at=min(2, d))
